@@ -240,11 +240,31 @@ CONFIG = {
             "uses the verif hooks logfile.NewNoRunForVerif / CycleForVerif / CloseForVerif (the real 10 s goroutine and its one-minute gate are bypassed)",
         ],
     },
+    "C18": {
+        "level": "exploration",
+        "rule": "C18: stateful edit/reload histories with typed-getter oracle and observers, write-back merge oracle with an independent properties reader, concurrent getters under the race detector, crash-point enumeration of one write through a recorded syscall trace.",
+        "groups": [G("c18", shards={"quick": 4, "thorough": 16}, timeout={"quick": 500, "thorough": 2400}),
+                   G("c18", race=True, run="TestRace", shards={"quick": 4, "thorough": 16}, timeout={"quick": 500, "thorough": 1800})],
+        "assumptions": [
+            "keys match [A-Za-z_][\\w.\\-]*, are unique per file and are not environment variables (the getters fall back to os.Getenv)",
+            "values are printable Unicode or tab, no newline, no leading blank, no ${ (the properties library expands it and terminates the process on malformed expressions), no doubled backslash (the writer collapses it on purpose), only blank/tab as trailing whitespace; key lines use '=' as separator",
+            "getters are compared on the trimmed value (GetValue trims); empty values are not asserted (apply merges only non-empty values, removed keys stay visible)",
+            "key lines are compared semantically (the writer normalises 'k = v' to 'k=v'); comment and blank lines must be byte-identical and in order",
+            "crash points are those between the system calls of one recorded run of SetValues (process stop), not power loss; needs strace (ptrace works in the sandbox), otherwise a weaker polling reader is used and flagged in evidence",
+            "WHATAP_HOME / WHATAP_CONFIG_HOME / WHATAP_CONFIG are unset; the only wall-clock bounds are hang detectors (30 s in-process, 180 s concurrent child, 120 s strace helper)",
+            "uses the verif hooks conffile.NewForVerif / ReloadNowForVerif",
+        ],
+    },
 }
 
 NOT_APPLICABLE = {}
 
 MANIFEST_TEXT = {
+    "C18": {
+        "technique": "stateful property-based testing (edit/reload/getter histories, write-back merge), race detector on generated reader/reload programs, crash-point enumeration by replaying a recorded syscall trace against a file-system model",
+        "level_text": "Generated-history exploration: file versions with adversarial values and same-second edits, typed getters against strconv, observers; write-back checked with an independent properties reader (old ∪ new, comments and order preserved); getters spinning during reloads under -race; for one SetValues per case every prefix of the recorded syscall sequence is evaluated on a file-system model: the path must always hold the complete old or the complete new content.",
+        "level_note": "Crash points = points between system calls of the recorded run. Reader/reload interleavings are sampled by the scheduler.",
+    },
     "C17": {
         "technique": "stateful (model-based) property-based testing under a virtual clock: file-system + rate-limiter model, planted look-alike files for retention, Read window oracle, concurrent logging with schedule-independent oracle",
         "level_text": "Generated-history exploration: log calls over all 12 methods with colliding limiter ids, clock advances across midnights and interval boundaries, cycles, configuration changes and planted files (own dated files of every age, own-prefix non-dates, foreign look-alikes, directories); after every cycle the complete logs directory is compared with the model. Read is exercised with 29 name templates incl. traversal.",
